@@ -49,6 +49,23 @@ def collect(h):
     else:
         raise h.Missing(f"{rel}: cannot recognise the ChannelsPerSubject check of NewChannel")
     items.append(("in10n_first_channel_checked", "bool", "true" if first else "false", rel))
+    # how the API calls queue their notifier event: an unconditional blocking send, or a
+    # select with default (the event is dropped when the queue is full)
+    def send_blocking(fn):
+        t = ftext(fn)
+        plain = re.search(r"^[ \t]*nb\.events\s*<-", t, re.M)
+        sel = re.search(r"case\s+nb\.events\s*<-", t)
+        if plain and not sel:
+            return True
+        if sel and not plain:
+            # a select without default still blocks
+            return not re.search(r"\bdefault\s*:", t[sel.end():])
+        raise h.Missing(f"{rel}: cannot recognise how {fn} sends to nb.events")
+    items.append(("in10n_update_enqueue_blocking", "bool", "true" if send_blocking("Update") else "false", rel))
+    # the model has no drop semantics for Subscribe / Unsubscribe: their sends must stay blocking
+    for fn in ("Subscribe", "Unsubscribe"):
+        if not send_blocking(fn):
+            raise h.Missing(f"{rel}: {fn} no longer queues its event with a blocking send (the model assumes it)")
     rel = "pkg/in10nmem/provide.go"
     h.find(rel, r"events:\s*make\(chan event,\s*eventsChannelSize\)", "events channel made with eventsChannelSize")
     return items
